@@ -168,7 +168,31 @@ def load_grammar(ruledir, skip_brute=False, skip_case=False, folder='Grammar', s
     with contextlib.redirect_stderr(err):
         g = PcfgGrammar(os.path.basename(ruledir), ruledir, version, save_file=save_file,
                         skip_brute=skip_brute, skip_case=skip_case, base_structure_folder=folder)
+    # a loaded grammar whose base structures name a variable that has no list cannot be run at all (every later step raises
+    # KeyError): report it with the files that produce it instead of crashing somewhere downstream
+    for b in g.base:
+        for r in b['replacements']:
+            if r not in g.grammar:
+                raise ImplFailure({'kind': 'base-structure-refers-to-missing-variable', 'variable': r,
+                                   'replacements': list(b['replacements']),
+                                   'witness': {'grammar_text': _read_text(os.path.join(ruledir, folder, 'grammar.txt')),
+                                               'variables_on_disk': sorted(k for k in g.grammar), 'skip_brute': skip_brute,
+                                               'skip_case': skip_case}})
     return g
+
+
+class ImplFailure(Exception):
+    """the implementation produced an unusable state; `violation` describes the concrete input"""
+    def __init__(self, violation):
+        super().__init__(violation.get('kind'))
+        self.violation = violation
+
+
+def _read_text(path):
+    try:
+        return open(path, encoding='utf-8', errors='replace').read()[:2000]
+    except OSError:
+        return None
 
 
 # ------------------------------------------------------------------------------------------------
